@@ -42,7 +42,7 @@ Definition send_msg (to amt : Z) : msg := {| m_type := ty_send; m_spend := []; m
 Definition stk0 : staking :=
   {| st_vals := [(0, FXu 100, FXu 100 * E18); (1, FXu 100, FXu 100 * E18); (2, FXu 100, FXu 100 * E18)];
      st_dels := [(0, 0, FXu 100 * E18); (1, 1, FXu 100 * E18); (2, 2, FXu 100 * E18)];
-     st_total_bonded := FXu 300 |}.
+     st_total_bonded := FXu 300; st_time := 0 |}.
 
 Definition yes : list (Z * Z) := [(1, E18)].
 
@@ -152,7 +152,7 @@ Definition stk1 : staking :=
   {| st_vals := [(0, FXu 100, FXu 100 * E18); (1, FXu 95, FXu 100 * E18); (2, FXu 100, FXu 100 * E18)];
      st_dels := [(0, 0, FXu 100 * E18); (1, 1, FXu 100 * E18); (2, 2, FXu 100 * E18);
                  (13, 1, FXu 40 * E18); (14, 2, 33333333333333333333 * E18)];
-     st_total_bonded := FXu 295 + FXu 38 + 33333333333333333333 |}.
+     st_total_bonded := FXu 295 + FXu 38 + 33333333333333333333; st_time := 0 |}.
 
 Definition h_main : list op :=
   [OSubmit 10 10 [text_msg] (FXu 9900) false true false;
@@ -205,8 +205,8 @@ Theorem atomic_nonvacuous :
       (p_status p, passes v, p_msgs p) = (SVoting, true, [toggle_msg] ++ fail_msg :: []) /\
       match pay_out s p (burns v) with
       | Some (s1, _) =>
-          match exec_msgs s1 [toggle_msg] with
-          | Some si => ext si = 2 :: ext s1 /\ exec_one si fail_msg = None
+          match exec_msgs (xenv_of P0 kf_code stk1 2) (passed_state s1 2 v) [toggle_msg] with
+          | Some si => ext si = 2 :: ext s1 /\ exec_one (xenv_of P0 kf_code stk1 2) si fail_msg = None
           | None => False
           end
       | None => False
@@ -269,3 +269,34 @@ Theorem undecodable_designated_outcome :
   outcome P0fix (h_bad 1) = ([(1, SDropped); (2, SRejected)], 0, FXu 1000000, FXu 1000000, ROk) /\
   outcome P0fix (h_bad 2) = ([(1, SDropped); (2, SFailedBad)], 0, FXu 1000000, FXu 1000000, ROk).
 Proof. vm_compute. repeat split; reflexivity. Qed.
+
+(* ------------------------------------------------------------------ the module account as depositor (finding C15-2, second shape) *)
+Definition pledge_msg (pid amt : Z) : msg := {| m_type := 9; m_spend := []; m_act := AGovDeposit pid amt |}.
+Definition stk_at (t : Z) : staking :=
+  {| st_vals := st_vals stk0; st_dels := st_dels stk0; st_total_bonded := st_total_bonded stk0; st_time := t |}.
+
+(* proposal 1, voted through, deposits 2,500 FX from the module account into proposal 2, whose real
+   depositor is account `who` (10: its address sorts before the module account's, 11: after it) *)
+Definition h_pledge (who : Z) : list op :=
+  [OSubmit 10 12 [pledge_msg 2 (FXu 2500)] (FXu 10000) false true false;
+   OVote 1 0 yes false; OVote 1 1 yes false; OVote 1 2 yes false;
+   OSubmit 3610 who [text_msg] (FXu 10000) false true false;
+   OEndBlock (10 + 14 * day) (stk_at (10 + 14 * day))].
+
+Definition pledge_outcome (who : Z) :=
+  let s := fst (run P0 kf_code (init bal0 cust0) (h_pledge who)) in
+  (option_map (fun p => (p_status p, p_total p, p_deps p)) (find_prop 2 (props s)),
+   gov_bal s, open_sum (props s), gov_spent s,
+   let '(r, s', _) := step P0 kf_code s (OEndBlock (3610 + 14 * day) (stk_at (3610 + 14 * day))) in
+   (r, gov_bal s', bal s' who)).
+
+(* After proposal 1 passed: proposal 2 shows 12,500 FX in two records, the account holds 10,000 FX.
+   When proposal 2 ends: its depositor sorting BEFORE the module account is refunded first, the
+   self-transfer of the pledge then fails and the end blocker with it; sorting AFTER, the
+   self-transfer comes first and the block goes through. *)
+Theorem conservation_refuted_by_gov_deposit :
+  pledge_outcome 10 = (Some (SVoting, FXu 12500, [(10, FXu 10000); (gov_acct, FXu 2500)]),
+                       FXu 10000, FXu 12500, FXu 2500, (RHalt, FXu 10000, FXu 990000)) /\
+  pledge_outcome 11 = (Some (SVoting, FXu 12500, [(11, FXu 10000); (gov_acct, FXu 2500)]),
+                       FXu 10000, FXu 12500, FXu 2500, (ROk, 0, FXu 1000000)).
+Proof. vm_compute. split; reflexivity. Qed.
